@@ -19,6 +19,7 @@ from harness.common import Case, f
 from symx.core import PathAbort, lift
 from symx.memfs import Crash, MemFS
 from symx.npx import patched
+from symx.core import reraise_if_harness  # noqa: E402
 
 LEVEL = "model_checking"
 FUNCTIONS = [
@@ -112,6 +113,7 @@ def case_json(prev_rows, P, E):
             except Crash:
                 raise
             except Exception as e:  # noqa: BLE001
+                reraise_if_harness(e)
                 ctx.note("restore_raised")
                 ctx.prove(z3.BoolVal(True), "no_silent_hybrid", f"crash at op {k} ({ops[k] if k < nops else 'none'}): restore raised {type(e).__name__}")
                 return
@@ -305,6 +307,7 @@ def replay_json(prev_rows, P, E, k, partial, csv_rows):
             try:
                 r = cal.Calibrator.restore_from_checkpoint(tmp, model if P == 1 else model2d)
             except Exception as e:  # noqa: BLE001
+                reraise_if_harness(e)
                 return False, f"crash at file operation {k}{' (mid-write)' if partial else ''} (died={died}): restore raised {type(e).__name__} - not a silent hybrid"
             R = state_of(r)
 
@@ -425,6 +428,7 @@ def _run_sqlite(k, interrupt=False, big=False):
             try:
                 back = sq.load_calibrator_state(tmp)
             except BaseException as e:  # noqa: BLE001
+                reraise_if_harness(e)
                 return nstat, failed, f"load raised {type(e).__name__}: {e}", False
             want = argsA if failed else argsB
             same = back[14] == want[14] and all(np.array_equal(np.asarray(back[i]), np.asarray(want[i])) for i in (15, 16, 17, 18, 19))
